@@ -80,10 +80,14 @@ CLAIMED = {
  'C16': dict(
     text='The bundled MD5 compression function is proved equal to RFC 1321 (64 assert-then-assume cut points against a ghost state machine whose T table is computed from sin(i) as the RFC defines; '
          'both the aligned and the unaligned data path), the bundled SHA-1 compression function to FIPS 180-4 (message schedule at an arbitrary ghost index; round loop in lock step with a ghost FIPS round), '
-         'plus initial values and rotate. All obligations are for every block and every chaining value.',
-    note=TRUST + 'Only the compression functions, initial values and rotate are under contract: the streaming layer (padding, chunking: md5_append/md5_finish, sha1::process_byte/get_digest), HMAC, hex key parsing, '
-         'SHA-2 and AES-CBC (OpenSSL/libgcrypt, external) and agreement of bundled vs. library implementations are NOT covered. Overflow checks are off (modular arithmetic by definition).',
-    design='4 (C16)', technique='cbmc: cut-point (assert-then-assume) equivalence per step, loop contracts with ghost lock-step state machine'),
+         'plus initial values and rotate. All obligations are for every block and every chaining value. The streaming layer is under contract too, with the compression function replaced by a recorder of '
+         'which bytes it is handed (ghost block index / byte index): md5_append and sha1::process_byte/process_block(range) advance the 64-bit length exactly and hand over exactly the completed 64-byte blocks of '
+         '(buffered bytes ++ input) in order (chunking independence, for every split); md5_finish and sha1::get_digest hand over buffered bytes ++ 0x80 ++ zeros ++ bit length (little/big endian) '
+         'in one or two final blocks for EVERY residue of the length mod 64 (RFC 1321 3.1-3.2 / FIPS 180-4 5.1.1), and emit the registers in the standard byte order.',
+    note=TRUST + 'Not covered: HMAC and hex key parsing (src/crypto.cpp, virtual message_digest objects over std::vector), SHA-2 and AES-CBC (OpenSSL/libgcrypt, external) and agreement of bundled vs. library '
+         'implementations. md5_finish is proved with md5_append inlined and its constant 8/16-iteration loops unwound (complete). Message length restricted to < 2^28 bytes per md5_append call (int nbytes << 3) and '
+         '<= 10^6 buffered bytes for SHA-1 (the 32-bit bit count written by get_digest is exact below 2^29 bytes; above that sha1.h truncates - observation). Overflow checks are off in the compression functions (modular arithmetic by definition).',
+    design='4 (C16)', technique='cbmc: cut-point (assert-then-assume) equivalence per step, loop contracts with ghost lock-step state machine; dfcc contracts with a ghost block recorder for the streaming layer'),
  'C18': dict(
     text='read_from_file is proved against EVERY file content (hence every torn state of every save over every earlier state): a load succeeds only if the file holds a complete 16-byte header and '
          '`size` payload bytes, the stored deadline is not in the past, and the checksum verified is that of exactly those payload bytes; on failure the caller\'s data and timeout are untouched. '
